@@ -18,7 +18,7 @@ import time
 from vt import harness, known
 from vt.harness import VERIF
 
-BUDGET = {"quick": 100, "thorough": 1500}  # seconds of generation per worker, inconclusive beyond
+BUDGET = {"quick": 240, "thorough": 1500}  # seconds of generation per worker: a safety net, quick tiers are sized to finish their CASES well before it
 SHRINK_BUDGET = {"quick": 25, "thorough": 240}
 MAX_SHRINK_BUCKETS = 4
 
